@@ -217,6 +217,20 @@ def run(R, ctx):
                                                         for x in l.split("files=")[1].split()[0].split(",") if x != "-"]) for l in ops[:40] if "files=" in l],
         aftermath=[a[3:] for a in aftermath],
         harness_input_lines=len(lines), generator="vlib/props/c16.py Gen v1", tmp=env.get("VERIF_TMP", "default"))
+    # sync points are OBSERVED (fdatasync count of the wal package): a save call that the contract requires to be durable and that returned without one
+    nosync = [l for l in obs if l[:2] in ("WS", "WN") and " nosync=" in l]
+    R.oblige("sync points: every Save that changes term or vote or carries entries, every SaveSnapshot and every cut was followed by an observed fdatasync before it returned",
+             "oracle", not nosync, "%d save calls returned without fdatasync" % len(nosync))
+    R.extra["sync_points"] = dict(observed_synced=sum(1 for l in obs if l[:2] in ("WC", "WS", "WN", "WX") and l.rstrip().split(" nosync=")[0].endswith("synced=1")),
+                                  observed_unsynced=sum(1 for l in obs if l[:2] == "WS" and l.rstrip().split(" nosync=")[0].endswith("synced=0")), missing=len(nosync))
+    for i, l in enumerate(nosync[:2]):
+        # the scenario up to and including this call is the replay
+        upto = obs.index(l)
+        start = max(k for k in range(upto + 1) if obs[k].startswith("WC "))
+        R.violation("wal-nosync-%d" % i, dict(kind="impl-violates-spec", engine="wal", summary=(l.split(" => ")[0][:200] + " :: " + l.split(" nosync=")[1])[:700],
+                                             lines=[x.split(" => ")[0] for x in obs[start:upto + 1]],
+                                             explanation="a save call that must be durable when it returns (the caller votes / acknowledges next) completed without fdatasync; "
+                                                         "the recorded view is what ReadAll returns from the last image known to be on stable storage"))
     ok = not d["mismatches"] and not d["unknown"]
     R.oblige("correspondence: segment images (model writer = wal.Create/Save/SaveSnapshot/cut/Close) byte for byte", "correspondence",
              not [m for m in d["mismatches"] if ":: WC" in m or ":: WS" in m or ":: WN" in m or ":: WX" in m or ":: SF" in m], "")
@@ -278,7 +292,7 @@ def replay(R, payload):
         env["VERIF_TMP"] = "/dev/shm"
     obs, se, rc = core.run_harness(binary, "wal", lines, env=env)
     d = core.run_driver(obs)
-    viol = [l for l in obs if "oracle=VIOL" in l and not (l.startswith("WB") and " cls=t " in l)]
+    viol = [l for l in obs if ("oracle=VIOL" in l and not (l.startswith("WB") and " cls=t " in l)) or (l[:2] in ("WS", "WN") and " nosync=" in l)]
     for m in (d["mismatches"] + d["unknown"])[:5]:
         print(m[:500])
     for l in viol[:5]:
